@@ -193,6 +193,12 @@ def crash_ops(rng, how, pending_clear):
 def build_case(rng, su, segments, crashes, script, kind):
     """segments: abstract histories, one per consumer lifetime; crashes[i]: how lifetime i ends ('drop'|'keep')"""
     spec = dict(su["spec"])
+    if any(a[0] == "commit" and a[1] is not None and a[1][0] == "write" for h in segments for a in h):
+        # after code 16 the coordinator is forgotten; a lookup whose write fails reaches no broker, and the model cannot
+        # learn from the wire which connection the client picked for it
+        script = [c for c in script if c != 16]
+        segments = [[("commit", ("code", a[1][1], 14)) if a[0] == "commit" and a[1] is not None and a[1][0] == "code" and a[1][2] == 16
+                     else a for a in h] for h in segments]
     if script:
         spec["commit_script"] = list(script)
     hosts = [h + b":" + str(p).encode() for _, (h, p) in sorted(spec["brokers"].items())]
